@@ -205,7 +205,7 @@ def spaces(tier):
         for ref in E.lists(U1, 3, minlen=2):
             for query in E.lists(U1, 5 if not q else 4, minlen=len(ref) + 1):
                 yield ("wide", ref, query)
-            yield ("wide", ref, ())          # an empty batch of queries is a legal query collection: matrices of shape (len(ref), 0)
+            yield ("wide", ref, ())          # an empty batch of queries: either refused, or answered with matrices of shape (len(ref), 0)
 
     def gen_invalid():
         for name, _ in INVALID:
@@ -389,6 +389,11 @@ def _one_two(acc, eng, ref, query, k, mode, out, cr, cq, expected):
     _cls(acc, out, cr, nrow, ncol)
     _cls(acc, "", cq)
     res = call_two(acc, eng, box(ref, cr), box(query, cq), k, mode, out)
+    if ncol == 0 and raised(res):
+        # C10 counts "empty input" among the invalid arguments: refusing an empty batch of queries is as acceptable as answering it
+        # (what is judged is that an answer, if given, has the shape (len(ref), 0) and no entries)
+        acc.ok((eng, "empty-query-refused"))
+        return
     bad = check_output(res, out, expected, nrow, ncol, False)
     if bad is None:
         acc.ok((eng, k, mode, out, tuple(sorted(expected))), nontrivial=bool(expected))
